@@ -230,11 +230,10 @@ theorem find_eq_findR (reg : Registry) (f : Forest) (id : Nat) (a : Entry) (hp :
   rw [find_eq]
   unfold findR Res.ofReg PlainAug at *
   cases h : findStart reg id a.d.nodeMod a.d.name with
-  | noName => rfl
-  | badPrefix => rfl
+  | noName => simp only [h]
+  | badPrefix => simp only [h]
   | go t parts =>
-    simp only [h] at hp
-    simp only
+    simp only [h] at hp ⊢
     cases f.tree? t with
     | none => rfl
     | some root => simp only [walkParts_eq_walkN parts hp]
@@ -320,7 +319,7 @@ theorem nsOfR_eq (reg : Registry) (f : Forest) (id : Nat) : namespaceAt reg f (i
   unfold namespaceAt nsOfR Res.ofReg
   cases f.tree? id with
   | none => rfl
-  | some root => simp [Entry.stampAt, Entry.stampAt.go]
+  | some root => simp [Entry.stampAt, Entry.stampAt.go]; rfl
 
 /-- The model's fold body, named. -/
 def stepM (reg : Registry) (id : Nat) (addErrors : Bool) (nsOf : String) (acc : PState × List Entry × Nat × Nat) (a : Entry) :
@@ -420,5 +419,248 @@ theorem augmentTree_eq (reg : Registry) (id : Nat) (addErrors : Bool) (s : PStat
   rw [hs] at this
   rw [this]
   rfl
+
+/-! ### what one `augmentTreeR` call does, as a relation -/
+
+/-- `FoldRel … f l f' U tr`: attempting the augments `l` in order from forest `f` ends in `f'`,
+leaves `U` unapplied (in order) and applies the events `tr` (in order). -/
+inductive FoldRel (R : Res) (id : Nat) (addErrors : Bool) (nsOf : String) :
+    Forest → List Entry → Forest → List Entry → List Ev → Prop
+  | nil (f : Forest) : FoldRel R id addErrors nsOf f [] f [] []
+  | fail {f f' f'' : Forest} {a : Entry} {l U : List Entry} {tr : List Ev} :
+      attemptR R id addErrors nsOf a f = (f', false) → FoldRel R id addErrors nsOf f' l f'' U tr →
+      FoldRel R id addErrors nsOf f (a :: l) f'' (a :: U) tr
+  | ok {f f' f'' : Forest} {a : Entry} {l U : List Entry} {tr : List Ev} :
+      attemptR R id addErrors nsOf a f = (f', true) → FoldRel R id addErrors nsOf f' l f'' U tr →
+      FoldRel R id addErrors nsOf f (a :: l) f'' U (⟨id, a, f⟩ :: tr)
+
+theorem foldl_stepR_rel (R : Res) (id : Nat) (addErrors : Bool) (nsOf : String) (l : List Entry) (acc : Acc) :
+    ∃ f'' U tr, FoldRel R id addErrors nsOf acc.forest l f'' U tr ∧
+      l.foldl (stepR R id addErrors nsOf) acc =
+        ⟨f'', acc.unapplied ++ U, acc.p + tr.length, acc.k + U.length, acc.trace ++ tr⟩ := by
+  induction l generalizing acc with
+  | nil => exact ⟨acc.forest, [], [], FoldRel.nil _, by simp⟩
+  | cons a l ih =>
+    simp only [List.foldl_cons]
+    cases hr : attemptR R id addErrors nsOf a acc.forest with
+    | mk f' b =>
+      cases b with
+      | false =>
+        have hstep : stepR R id addErrors nsOf acc a =
+            { acc with forest := f', unapplied := acc.unapplied ++ [a], k := acc.k + 1 } := by
+          simp [stepR, hr]
+        obtain ⟨f'', U, tr, hrel, heq⟩ := ih { acc with forest := f', unapplied := acc.unapplied ++ [a], k := acc.k + 1 }
+        refine ⟨f'', a :: U, tr, FoldRel.fail hr hrel, ?_⟩
+        rw [hstep, heq]
+        simp [Nat.add_assoc, Nat.add_comm 1]
+      | true =>
+        have hstep : stepR R id addErrors nsOf acc a =
+            { acc with forest := f', p := acc.p + 1, trace := acc.trace ++ [⟨id, a, acc.forest⟩] } := by
+          simp [stepR, hr]
+        obtain ⟨f'', U, tr, hrel, heq⟩ := ih { acc with forest := f', p := acc.p + 1, trace := acc.trace ++ [⟨id, a, acc.forest⟩] }
+        refine ⟨f'', U, ⟨id, a, acc.forest⟩ :: tr, FoldRel.ok hr hrel, ?_⟩
+        rw [hstep, heq]
+        simp [Nat.add_assoc, Nat.add_comm 1]
+
+namespace FoldRel
+variable {R : Res} {id : Nat} {addErrors : Bool} {nsOf : String}
+
+theorem mem_iff {f f' : Forest} {l U : List Entry} {tr : List Ev} (h : FoldRel R id addErrors nsOf f l f' U tr) :
+    ∀ a, a ∈ l ↔ a ∈ U ∨ a ∈ tr.map (·.aug) := by
+  induction h with
+  | nil f => simp
+  | fail _ _ ih => intro b; simp [ih b, or_assoc]
+  | ok _ _ ih => intro b; simp [ih b]; constructor <;> (rintro (h | h | h) <;> simp [h])
+
+theorem owner {f f' : Forest} {l U : List Entry} {tr : List Ev} (h : FoldRel R id addErrors nsOf f l f' U tr) :
+    ∀ ev ∈ tr, ev.owner = id := by
+  induction h with
+  | nil f => simp
+  | fail _ _ ih => exact ih
+  | ok _ _ ih => intro ev hev; rcases List.mem_cons.mp hev with rfl | hev; rfl; exact ih ev hev
+
+theorem length_eq {f f' : Forest} {l U : List Entry} {tr : List Ev} (h : FoldRel R id addErrors nsOf f l f' U tr) :
+    tr.length + U.length = l.length := by
+  induction h with
+  | nil f => rfl
+  | fail _ _ ih => simp; omega
+  | ok _ _ ih => simp; omega
+
+theorem nodup {f f' : Forest} {l U : List Entry} {tr : List Ev} (h : FoldRel R id addErrors nsOf f l f' U tr)
+    (hn : l.Nodup) : U.Nodup ∧ (tr.map (·.aug)).Nodup ∧ ∀ a ∈ U, a ∉ tr.map (·.aug) := by
+  induction h with
+  | nil f => simp
+  | @fail f f' f'' a l U tr _ hrel ih =>
+    obtain ⟨hna, hnl⟩ := List.nodup_cons.mp hn
+    obtain ⟨h1, h2, h3⟩ := ih hnl
+    have hmem := hrel.mem_iff
+    refine ⟨List.nodup_cons.mpr ⟨fun h => hna ((hmem a).mpr (Or.inl h)), h1⟩, h2, ?_⟩
+    intro b hb
+    rcases List.mem_cons.mp hb with rfl | hb
+    · exact fun h => hna ((hmem b).mpr (Or.inr h))
+    · exact h3 b hb
+  | @ok f f' f'' a l U tr _ hrel ih =>
+    obtain ⟨hna, hnl⟩ := List.nodup_cons.mp hn
+    obtain ⟨h1, h2, h3⟩ := ih hnl
+    have hmem := hrel.mem_iff
+    refine ⟨h1, ?_, ?_⟩
+    · simp only [List.map_cons, List.nodup_cons]
+      exact ⟨fun h => hna ((hmem a).mpr (Or.inr h)), h2⟩
+    · intro b hb
+      simp only [List.map_cons, List.mem_cons, not_or]
+      exact ⟨fun h => hna (h ▸ (hmem b).mpr (Or.inl hb)), h3 b hb⟩
+
+end FoldRel
+
+/-! ### pending bookkeeping -/
+
+theorem find?_map_fst {β : Type} (g : Nat × β → Nat × β) (hg : ∀ x, (g x).1 = x.1) (l : List (Nat × β)) (k : Nat) :
+    (l.map g).find? (·.1 == k) = (l.find? (·.1 == k)).map g := by
+  induction l with
+  | nil => rfl
+  | cons x xs ih =>
+    rw [List.map_cons, List.find?_cons, List.find?_cons, hg]
+    cases h : (x.1 == k)
+    · exact ih
+    · rfl
+
+theorem pendingOf_setPending (s : PState) (id : Nat) (l : List Entry) (id' : Nat) :
+    (s.setPending id l).pendingOf id' =
+      if id' = id then (if (s.pending.find? (·.1 == id)).isSome then l else []) else s.pendingOf id' := by
+  unfold PState.setPending PState.pendingOf
+  simp only
+  have hfun : (fun (x : Nat × List Entry) => match x with | (i, p) => if i == id then (i, l) else (i, p)) =
+      fun (x : Nat × List Entry) => if x.1 == id then (x.1, l) else (x.1, x.2) := by
+    funext x; cases x; rfl
+  have hg : ∀ x : Nat × List Entry,
+      ((fun (x : Nat × List Entry) => if x.1 == id then (x.1, l) else (x.1, x.2)) x).1 = x.1 := by
+    intro x; by_cases h : (x.1 == id) = true <;> simp [h]
+  rw [hfun, find?_map_fst _ hg]
+  by_cases hid : id' = id
+  · subst hid
+    rw [if_pos rfl]
+    cases hf : s.pending.find? (·.1 == id') with
+    | none => rfl
+    | some x =>
+      have h1 : (x.1 == id') = true := by simpa using List.find?_some hf
+      simp only [Option.map_some, Option.getD_some, h1, if_true, Option.isSome_some]
+  · rw [if_neg hid]
+    cases hf : s.pending.find? (·.1 == id') with
+    | none => rfl
+    | some x =>
+      have h1 : x.1 = id' := by simpa using List.find?_some hf
+      have h2 : (x.1 == id) = false := by simp [h1, hid]
+      simp only [Option.map_some, Option.getD_some, h2, Bool.false_eq_true, if_false]
+
+theorem pendingOf_eq_nil_of_not_found (s : PState) (id : Nat) (h : (s.pending.find? (·.1 == id)).isSome = false) :
+    s.pendingOf id = [] := by
+  unfold PState.pendingOf
+  cases hf : s.pending.find? (·.1 == id) with
+  | none => rfl
+  | some x => simp [hf] at h
+
+/-- Everything one call of `augmentTreeR` does. -/
+theorem augmentTreeR_spec (R : Res) (id : Nat) (addErrors : Bool) (s : PState) :
+    ∃ f' U tr, FoldRel R id addErrors (nsOfR R s.forest id) s.forest (s.pendingOf id) f' U tr ∧
+      augmentTreeR R id addErrors s = (({ s with forest := f' } : PState).setPending id U, tr.length, U.length, tr) ∧
+      (∀ id', ((augmentTreeR R id addErrors s).1).pendingOf id' = if id' = id then U else s.pendingOf id') := by
+  obtain ⟨f', U, tr, hrel, heq⟩ := foldl_stepR_rel R id addErrors (nsOfR R s.forest id) (s.pendingOf id) ⟨s.forest, [], 0, 0, []⟩
+  have hval : augmentTreeR R id addErrors s = (({ s with forest := f' } : PState).setPending id U, tr.length, U.length, tr) := by
+    unfold augmentTreeR
+    simp only [heq]
+    simp
+  refine ⟨f', U, tr, hrel, hval, ?_⟩
+  intro id'
+  rw [hval]
+  simp only
+  rw [pendingOf_setPending]
+  by_cases hid : id' = id
+  · subst hid
+    simp only [if_true]
+    cases hfound : (s.pending.find? (·.1 == id')).isSome with
+    | true => simp
+    | false =>
+      have hnil : s.pendingOf id' = [] := pendingOf_eq_nil_of_not_found s id' hfound
+      have := hrel.length_eq
+      rw [hnil] at this
+      simp only [List.length_nil] at this
+      have hU : U = [] := List.eq_nil_of_length_eq_zero (by omega)
+      simp [hU]
+  · simp only [hid, if_false]
+    rfl
+
+theorem augmentTreeR_pending_sub (R : Res) (id : Nat) (addErrors : Bool) (s : PState) (id' : Nat) :
+    ∀ a ∈ ((augmentTreeR R id addErrors s).1).pendingOf id', a ∈ s.pendingOf id' := by
+  obtain ⟨f', U, tr, hrel, _, hp⟩ := augmentTreeR_spec R id addErrors s
+  intro a ha
+  rw [hp] at ha
+  by_cases hid : id' = id
+  · subst hid
+    simp only [if_true] at ha
+    exact (hrel.mem_iff a).mpr (Or.inl ha)
+  · simpa [hid] using ha
+
+theorem PlainPending.step {reg : Registry} {s : PState} (h : PlainPending reg s) (R : Res) (id : Nat) (addErrors : Bool) :
+    PlainPending reg (augmentTreeR R id addErrors s).1 :=
+  fun id' a ha => h id' a (augmentTreeR_pending_sub R id addErrors s id' a ha)
+
+theorem augmentPass_eq (reg : Registry) (fuel : Nat) (mods : Array Nat) (i processed : Nat) (s : PState) (tr : List Ev)
+    (hp : PlainPending reg s) :
+    augmentPass reg fuel mods i processed s =
+      let r := augmentPassR (Res.ofReg reg) fuel mods i processed s tr
+      (r.1, r.2.1, r.2.2.1) := by
+  induction fuel generalizing mods i processed s tr with
+  | zero => rfl
+  | succ fuel ih =>
+    unfold augmentPass augmentPassR
+    by_cases h : i < mods.size
+    · simp only [h, dite_true]
+      rw [augmentTree_eq reg mods[i] false s (hp mods[i])]
+      simp only
+      have hp' := hp.step (Res.ofReg reg) mods[i] false
+      by_cases hk : ((augmentTreeR (Res.ofReg reg) mods[i] false s).2.2.1 == 0) = true
+      · simp only [hk, if_true]
+        exact ih _ _ _ _ _ hp'
+      · simp only [hk, Bool.false_eq_true, if_false]
+        exact ih _ _ _ _ _ hp'
+    · simp only [h, dite_false]
+
+theorem augmentPassR_pending_sub (R : Res) (fuel : Nat) (mods : Array Nat) (i processed : Nat) (s : PState) (tr : List Ev)
+    (id' : Nat) : ∀ a ∈ ((augmentPassR R fuel mods i processed s tr).2.2.1).pendingOf id', a ∈ s.pendingOf id' := by
+  induction fuel generalizing mods i processed s tr with
+  | zero => intro a ha; exact ha
+  | succ fuel ih =>
+    unfold augmentPassR
+    by_cases h : i < mods.size
+    · simp only [h, dite_true]
+      by_cases hk : ((augmentTreeR R mods[i] false s).2.2.1 == 0) = true
+      · simp only [hk, if_true]
+        intro a ha
+        exact augmentTreeR_pending_sub R _ false s id' a (ih _ _ _ _ _ a ha)
+      · simp only [hk, Bool.false_eq_true, if_false]
+        intro a ha
+        exact augmentTreeR_pending_sub R _ false s id' a (ih _ _ _ _ _ a ha)
+    · simp only [h, dite_false]; intro a ha; exact ha
+
+theorem augmentLoop_eq (reg : Registry) (fuel : Nat) (mods : Array Nat) (s : PState) (tr : List Ev)
+    (hp : PlainPending reg s) :
+    augmentLoop reg fuel mods s =
+      let r := augmentLoopR (Res.ofReg reg) fuel mods s tr
+      (r.1, r.2.1) := by
+  induction fuel generalizing mods s tr with
+  | zero => rfl
+  | succ fuel ih =>
+    unfold augmentLoop augmentLoopR
+    by_cases he : mods.isEmpty = true
+    · simp only [he, if_true]
+    · simp only [he, Bool.false_eq_true, if_false]
+      rw [augmentPass_eq reg (mods.size + 1) mods 0 0 s tr hp]
+      simp only
+      by_cases h0 : ((augmentPassR (Res.ofReg reg) (mods.size + 1) mods 0 0 s tr).2.1 == 0) = true
+      · simp only [h0, if_true]
+      · simp only [h0, Bool.false_eq_true, if_false]
+        apply ih
+        intro id' a ha
+        exact hp id' a (augmentPassR_pending_sub _ _ _ _ _ _ _ id' a ha)
 
 end Goyang.Lemmas.AugmentModel
